@@ -197,6 +197,16 @@ func SolveAll(obs []*Ob, outDir string, timeoutS int) {
 					to = 2
 				}
 				r = raceSolve(ob.Query, outDir, base, to)
+				if ob.Kind != "cover" && r.status != "unsat" && r.status != "sat" && r.status != "error" {
+					// no answer within the limit on any back end: one more attempt with three times the limit before the
+					// obligation is reported (a loaded machine must not turn a slow proof into an alarm)
+					first := r
+					r = raceSolve(ob.Query, outDir, base, 3*to)
+					r.timeS += first.timeS
+					if r.status == "unsat" {
+						r.solver += "(retry)"
+					}
+				}
 				if key != "" && (r.status == "unsat" || r.status == "sat") {
 					os.MkdirAll(cacheDir, 0755)
 					os.WriteFile(key, []byte(r.status+" "+r.solver), 0644)
